@@ -96,6 +96,27 @@ func (m *MatchTLS) Match(cx *layer4.Connection) (bool, error) {
 		return false, err
 	}
 
+	// the ClientHello may be spread over several records (RFC 8446, section 5.1); its own header
+	// (message type and uint24 length) tells how long it is, so keep reading handshake records
+	// until all of it is here - like crypto/tls does
+	const msgHeaderLen = 4
+	for len(rawHello) < msgHeaderLen ||
+		len(rawHello) < msgHeaderLen+(int(rawHello[1])<<16|int(rawHello[2])<<8|int(rawHello[3])) {
+		_, err = io.ReadFull(cx, hdr)
+		if err != nil {
+			return false, err
+		}
+		if hdr[0] != recordTypeHandshake {
+			return false, nil
+		}
+		fragment := make([]byte, int(uint16(hdr[3])<<8|uint16(hdr[4])))
+		_, err = io.ReadFull(cx, fragment)
+		if err != nil {
+			return false, err
+		}
+		rawHello = append(rawHello, fragment...)
+	}
+
 	// parse the ClientHello
 	chi := parseRawClientHello(rawHello)
 	chi.Conn = cx
